@@ -110,6 +110,7 @@ structure St where
   ranInl : Nat → Bool        -- executed from the constructor
   deqd : Nat → Bool          -- dequeued by request_stop
   owner : Nat → Nat          -- activity that constructs / executes the callback
+  ctorBy : Nat → Nat         -- activity that runs the constructor
   runs : Nat → Nat           -- number of times the callback body was entered
   running : Nat → Bool
   reqAtReg : Nat → Bool      -- stop had been requested when the constructor was invoked
@@ -121,7 +122,7 @@ def init (n K : Nat) (ident : Nat → Nat) (fixCas fixCtor : Bool) (srcs : Nat) 
     lock := none, req := false, srcs := srcs, list := [], sig := 0, pc := fun _ => .idle,
     fin := fun _ => false, remPtr := fun _ => none, remFlag := fun _ => false,
     life := fun _ => .new, kept := fun _ => false, pushed := fun _ => false, ranInl := fun _ => false,
-    deqd := fun _ => false, owner := fun _ => 0, runs := fun _ => 0, running := fun _ => false,
+    deqd := fun _ => false, owner := fun _ => 0, ctorBy := fun _ => 0, runs := fun _ => 0, running := fun _ => false,
     reqAtReg := fun _ => false, rsTrue := 0, winner := none }
 
 /-- Where a lock loop goes after observing the word `(lk, rq, src)` with the function's own
@@ -150,7 +151,8 @@ def step (s : St) : Ev → Option St
       | .reg c =>
         if s.life c = .new then
           some { s with pc := upd s.pc a (.ld (.reg c)), life := upd s.life c .ctor,
-                        owner := upd s.owner c a, reqAtReg := upd s.reqAtReg c s.req }
+                        owner := upd s.owner c a, ctorBy := upd s.ctorBy c a,
+                        reqAtReg := upd s.reqAtReg c s.req }
         else none
       | .unreg c =>
         if s.life c = .live then
